@@ -4,6 +4,7 @@ import PyYetiVerif.Props.C13Dmig
 import PyYetiVerif.Props.C13Grid
 import PyYetiVerif.Props.C13Cord
 import PyYetiVerif.Props.C13DmigX
+import PyYetiVerif.Props.C13Fmt
 #print axioms PyYetiVerif.C13.thru_roundtrip
 #print axioms PyYetiVerif.C13.thru_maximal
 #print axioms PyYetiVerif.C13.nasints_layout
@@ -50,3 +51,10 @@ import PyYetiVerif.Props.C13DmigX
 #print axioms PyYetiVerif.C13.rddmig_expanded_spec
 #print axioms PyYetiVerif.C13.rddmig_square_spec
 #print axioms PyYetiVerif.C13.rddmig_options_on_lines
+#print axioms PyYetiVerif.C13.bulk_format_widths_ok
+#print axioms PyYetiVerif.C13.dmig_lines_are_templates
+#print axioms PyYetiVerif.C13.grid_card_is_template
+#print axioms PyYetiVerif.C13.cord_card_is_template
+#print axioms PyYetiVerif.C13.nasints_is_template
+#print axioms PyYetiVerif.C13.set_tokens_are_templates
+#print axioms PyYetiVerif.C13.tabled1_is_template
